@@ -48,7 +48,7 @@ def run_case(i, tier, seed):
                                    image_order=image_order)
     imgs = info["names"]["imgs"]
     kind = ["memory", "vfs", "local"][i % 3]
-    root = harness.unique_root(kind)
+    root = harness.unique_root(kind, rng=rng)
     url = synth.install(files, root, kind)
     sig = f"{level}|pols:{n_pols}|scans:{len(scans) if scans != [None] else 0}|mp:{n_mp}|shuf:{int(shuffled)}|{kind}|order:{image_order}"
     try:
